@@ -206,6 +206,43 @@ int fclose(FILE *fp) {
   return r;
 }
 
+// rename / unlink / remove of files in the job directory: decision point before, file event after (the job file
+// may have been replaced atomically)
+typedef int (*rename_t)(const char *, const char *);
+typedef int (*unlink_t)(const char *);
+
+int rename(const char *from, const char *to) {
+  static rename_t real = nullptr;
+  if (!real) real = (rename_t)dlsym(RTLD_NEXT, "rename");
+  int fid = (active() && g_env) ? g_env->file_id(to) : FILE_NONE;
+  int fid2 = (active() && g_env) ? g_env->file_id(from) : FILE_NONE;
+  if (fid == FILE_NONE && fid2 == FILE_NONE) return real(from, to);
+  sim::Harness harness_scope;
+  int proc = sim::self_proc();
+  sim::point(sim::K_FOPEN, 100 + (fid >= 0 ? fid : fid2));
+  int r = real(from, to);
+  sim::event(sim::K_FOPEN, 100 + (fid >= 0 ? fid : fid2), r);
+  g_env->file_event(proc, fid >= 0 ? fid : fid2, "rename", 0);
+  return r;
+}
+
+static int sim_unlink(const char *name, const char *path) {
+  static unlink_t real_unlink = nullptr, real_remove = nullptr;
+  if (!real_unlink) { real_unlink = (unlink_t)dlsym(RTLD_NEXT, "unlink"); real_remove = (unlink_t)dlsym(RTLD_NEXT, "remove"); }
+  unlink_t real = strcmp(name, "remove") == 0 ? real_remove : real_unlink;
+  int fid = (active() && g_env) ? g_env->file_id(path) : FILE_NONE;
+  if (fid == FILE_NONE) return real(path);
+  sim::Harness harness_scope;
+  int proc = sim::self_proc();
+  sim::point(sim::K_FOPEN, 200 + fid);
+  int r = real(path);
+  sim::event(sim::K_FOPEN, 200 + fid, r);
+  g_env->file_event(proc, fid, "unlink", 0);
+  return r;
+}
+int unlink(const char *path) { return sim_unlink("unlink", path); }
+int remove(const char *path) { return sim_unlink("remove", path); }
+
 // ---------------------------------------------------------------------------
 // --wrap seam: calls made by statically linked votca objects
 // ---------------------------------------------------------------------------
